@@ -49,11 +49,20 @@ def gen_case(rng: Rng, i: int, tier: str):
                     m["content"]["len"] = 150
             if any(m["kind"] == "symlink" for m in c["members"]):
                 continue
+            if i % 10 == 4 and c["layout"]["folders"] and c["layout"].get("password") is None:
+                # directed: one CRC per folder, a decoder that can deliver its last byte before the last input block is read
+                # (Deflate, BZip2, ZStandard end-of-stream bits), and the archive read in 16-byte blocks
+                c["layout"]["crc"] = "folder"
+                # (a folder with a single stream lends its CRC to that member: all data goes into one solid folder)
+                every = [k for fo in c["layout"]["folders"] for k in fo["members"]]
+                c["layout"]["folders"] = [{"members": every, "chain": [{"id": ["DEFLATE", "ZSTD", "LZMA2", "DEFLATE", "LZMA"][(i // 10) % 5]}]}]
+                return {"ref": {"members": c["members"], "layout": c["layout"]}, "open": r.pick(["stream", "path", "anon"]), "rng": r.randrange(1 << 30),
+                        "sampled": 400 if tier == "quick" else 3000, "block": 16}
             if r.chance(0.6):
                 c["layout"]["packcrc"] = True
             # the block size the library reads and digests packed streams in: every verdict must hold whatever it is
             return {"ref": {"members": c["members"], "layout": c["layout"]}, "open": r.pick(["stream", "path", "anon"]), "rng": r.randrange(1 << 30), "sampled": 400 if tier == "quick" else 3000,
-                    "block": r.pick([None, 16, 16, 64])}
+                    "block": r.pick([16, 16, 64]) if i % 10 == 9 else r.pick([None, 16, 16, 64])}
     fams = gen.COMPRESSORS
     arc = rsess.gen_archive(rng.sub("arc"), tier, maxlen=120, want_dirs=False if r.chance(0.6) else True)
     # stratify the first session's chain over the compressor families and header modes
